@@ -48,6 +48,8 @@ def NTS_(): return Struct(M.NT, {"a": Int(), "b": Str()})
 def NTSS(): return Struct(M.NTS, {"name": Str(), "n": Int()})
 def TDS(): return Struct(M.TD, {"a": Int(), "b": Str()}, kind="typeddict")
 def TDNS(): return Struct(M.TDN, {"a": Int(), "b": Str()}, kind="typeddict", optional=("b",))
+def TDChildS(): return Struct(M.TDChild, {"id": Int(), "nick": Str()}, kind="typeddict", optional=("nick",))
+def TDReqS(): return Struct(M.TDReq, {"key": Int(), "note": Str()}, kind="typeddict", optional=("note",))
 def PlainS(): return Struct(M.Plain, {"a": Int(), "b": Str()})
 def SlottedS(): return Struct(M.Slotted, {"a": Int(), "b": Str()})
 
@@ -154,7 +156,7 @@ def containers1():
 
 def structured():
     return [PointS(), SPointS(), FPointS(), KPointS(), LineS(), BagS(), MixedS(), NTS_(), NTSS(), TDS(), TDNS(),
-            PlainS(), SlottedS()]
+            TDChildS(), TDReqS(), PlainS(), SlottedS()]
 
 
 def wrappers():
@@ -194,7 +196,7 @@ CORE = {
     "Decimal", "UUID", "date", "datetime", "time", "timedelta", "PosixPath" , "Path",
     "list[int]", "Sequence[str]", "set[int]", "deque[int]", "tuple[int,...]", "tuple[int,str]", "tuple[int,str,bool]",
     "dict[str,int]", "dict[int,str]", "Mapping[str,int]", "Optional[int]", "Optional[str]", "int|None",
-    "Point", "SPoint", "KPoint", "Line", "Bag", "Mixed", "NT", "NTS", "TD", "TDN", "Plain", "Slotted",
+    "Point", "SPoint", "KPoint", "Line", "Bag", "Mixed", "NT", "NTS", "TD", "TDN", "TDChild", "TDReq", "Plain", "Slotted",
     "NewType(int)", "alias(list[int])", "alias(Point)", "alias('str')", "Final[int]",
     "Tree", "Chain", "DNode", "Ping", "Dept",
     "list[list[int]]", "dict[str,list[int]]", "list[Point]", "dict[str,Point]", "list[Optional[int]]",
